@@ -30,7 +30,7 @@ def judge(ctx, module, cases_file, cfg=None, timeout=1500, heap="6g", env=None):
     """Returns (fails, drifts): dicts index(1-based) -> set of names."""
     e = {"CASES_FILE": cases_file}
     e.update(env or {})
-    r = common.tlc(module, cfg, env=e, workers=8, timeout=timeout, heap=heap)
+    r = common.tlc(module, cfg, env=e, workers=2, timeout=timeout, heap=heap)
     if r.errors or not r.finished:
         brief = "\n".join(l for l in r.out.splitlines() if not re.match(r"^(Parsing|Semantic|Linting|\d+\. Line)", l))
         raise MachineryError("judge %s did not complete:\n%s" % (module, brief[-2500:]))
